@@ -61,17 +61,17 @@ CHECKS = {
                 "exact os.scandir call sequence on generated real trees (K5); glob.glob is compared with the executable specification "
                 "on every tree/pattern and, in the thorough tier, the specification with bash 5.2 (validation of the spec).",
         'note': TB + "PARTIAL: the induction over the part list is checked, not proved; full statement false on this tree (open known "
-                "findings KF-D14, KF-D17, KF-G2 with decide+kernel witnesses). Bash cannot be a Lean object: labelled validation.",
+                "findings KF-D17, KF-G2 with decide+kernel witnesses; D14 repaired, D14_fixed_witness). Bash cannot be a Lean object: labelled validation.",
         'technique': 'Lean 4 spec soundness + deep-walk characterisation theorems + exact-sequence correspondence + spec-vs-glob search',
     },
     'C12': {
         'text': "Output invariants of the walker model for every tree, part list and flag record: iglob = glob (definitional); a result ends "
                 "in a separator when the pattern ended with one or MARK is set and the candidate is a directory, and is otherwise spelled "
                 "as the walk spelled it; under NODIR the no-directory regex is among the exclusions and rejects every directory candidate "
-                "whose path has no newline; every result is a formatted, non-excluded candidate of the walk. Root independence "
+                "(no newline proviso since the D18 repair); every result is a formatted, non-excluded candidate of the walk. Root independence "
                 "(root_dir str/bytes/PathLike, dir_fd, cwd) is compared on the real code: five real runs vs one model run.",
         'note': TB + "PARTIAL: `every result exists` is false on this tree (KF-D17) and root independence fails through dir_fd (KF-G4); "
-                "KF-D16/KF-D18 (NODIR regex) recorded with witnesses. OS behaviour of dir_fd/cwd is outside the model.",
+                "D16/D18 (NODIR regex) are repaired (D18_D16_fixed_witness). OS behaviour of dir_fd/cwd is outside the model.",
         'technique': 'Lean 4 output-invariant theorems on the walker model + K5 with five root mechanisms',
     },
     'C09': {
@@ -292,12 +292,13 @@ CHECKS['C05'].update({
     'text': "Theorems (Lean): C05_partial_split — for EVERY pattern string and flag word, the parts `_GlobSplit` produces (model globSplit) satisfy "
             "the shape facts the walker theorem needs (globSplit_WFParts / _drive / _litText; also: no '/' inside a literal part, adjacent globstars "
             "only as the D6 base-part shape, non-empty parts), and for those parts the walker model returns exactly the paths the inductive "
-            "specification Denotes — for every tree, under hypotheses that exclude exactly the recorded defects (SegAgree: re.match vs full match, "
-            "D14; a literal first name followed by further parts names a directory, D17), no FOLLOW, fuel above the tree height. `**` = Below "
+            "specification Denotes — for every tree, under hypotheses that exclude exactly the recorded defects (a literal first name followed by further parts names a "
+            "directory, D17; the SegAgree hypothesis — re.match vs full match, D14 — is a theorem since the D14 repair, segAgree_all, and the "
+            "C05_main_* corollaries are stated without it), no FOLLOW, fuel above the tree height. `**` = Below "
             "(sound and complete); executable specification = declarative one. Tie: _GlobSplit parts, exact result sequence and exact os.scandir "
             "call sequence on generated real trees (K5, incl. case-variant sibling directories under IGNORECASE); glob.glob vs the executable "
             "specification on every tree/pattern; thorough: specification vs bash 5.2 (validation of the spec).",
-    'note': TB + "full statement false on this tree (open known findings KF-D14, KF-D17, KF-G2 with decide+kernel witnesses); the segment language "
+    'note': TB + "full statement false on this tree (open known findings KF-D17, KF-G2 with decide+kernel witnesses; D14 repaired: D14_fixed_witness); the segment language "
             "of a part is taken from its compiled regex (C01-C03). Bash cannot be a Lean object: labelled validation.",
     'technique': "Lean 4 refinement theorem walker = Denotes (induction on parts and tree) with the splitter's output shape proved for all strings "
                  "+ exact-sequence correspondence + spec-vs-glob search",
@@ -405,7 +406,7 @@ CHECKS['C04'].update({
             "known findings attributed by call-site signature.",
     'note': TB + "PARTIAL: that runCap returns Python's FIRST match (priority order) is validated by K6, not proved — with several `**` groups the "
             "split is assumed; later groups are tested under the base the first one left (defect G3). Open known findings KF-D7, D8, G2, G3, "
-            "G5-G8, D14, D16, D17, D5, D6, D3.",
+            "G5-G8, D17, D5, D6, D3 (D14, D16 repaired).",
     'technique': "Lean 4 soundness/completeness proof of the capture matcher w.r.t. the declarative regex semantics + characterisation of the "
                  "match model + side-clause theorems; exact-sequence correspondence and direct glob-vs-globmatch search",
 })
